@@ -30,6 +30,7 @@ def twin_wire(f1: "ref:FcpV2", f2: "ref:FcpV2", t: "ref:Type", v: "dyn"):
     requires(twin(f1, f2))
     ensures(wire(f1, t, v) == wire(f2, t, v))
     hint(t.name)
+    option("no_unfold", ["wire_fields", "wire_elems"])
     if isinstance(t, StructType):
         twin_fields(f1, f2, sorted_fields(struct_of(f1, t.name)), v, len(sorted_fields(struct_of(f1, t.name))))
     elif isinstance(t, ArrayType):
